@@ -1228,6 +1228,13 @@ func specialC19(seed int64, thorough bool) *Special {
 			sp.Samples = append(sp.Samples, map[string]interface{}{"sequence": s, "ndocs": nd, "reads_during_load": loadReads, "reads_total": totalReads, "calls": names})
 		}
 	}
+	before := sp.Evaluations
+	maxJ := 12
+	if thorough {
+		maxJ = 120
+	}
+	dvChunkFaults(sp, seed, maxJ)
+	sp.Extra["doc_value_header_fault_visits"] = sp.Evaluations - before
 	sp.Extra["fault_points"] = points
 	sp.Extra["outcomes"] = kinds
 	return sp
@@ -1744,4 +1751,66 @@ func specialLarge(prop string, seed int64, thorough bool) *Special {
 		}
 	}
 	return sp
+}
+
+// dvChunkFaults: one reader with a cached doc-value chunk; the storage starts failing at the j-th read
+// of the load of ANOTHER chunk (for every small j: inside the header, which is overwritten entry by
+// entry); afterwards the documents of the still-cached chunk are visited again.  Every answer must be an
+// error, empty, or the fault-free answer (finding D15: a half-written header used to be paired with the old
+// chunk's data).
+func dvChunkFaults(sp *Special, seed int64, maxJ int) {
+	var b Batch
+	n := 2100
+	term := func(d int) []byte { return []byte(fmt.Sprintf("t%04d%s", d, strings.Repeat("x", (d*7)%5))) }
+	for d := 0; d < n; d++ {
+		b = append(b, Doc{idField(fmt.Sprintf("k%d", d), false), {N: "f", Len: 1, DV: true, Terms: []Term{{T: term(d), Freq: 1}}}})
+	}
+	file, _, err := buildBytes(Current, b, 1025)
+	if err != nil {
+		sp.failf(nil, "dvChunkFaults: build failed: %v", err)
+		return
+	}
+	fr := &faultyReader{b: file, failFrom: -1}
+	seg, err := Current.Load(segment.NewDataReaderAt(fr, len(file)))
+	if err != nil {
+		sp.failf(nil, "dvChunkFaults: load failed: %v", err)
+		return
+	}
+	for _, dir := range [][2]uint64{{1500, 5}, {5, 1500}, {2060, 1030}} { // cached chunk, chunk whose load fails
+		for j := int64(1); j <= int64(maxJ); j++ {
+			rd, _ := seg.DocumentValueReader([]string{"f"})
+			visit := func(d uint64) (string, error) {
+				out := ""
+				err := rd.VisitDocumentValues(d, func(f string, t []byte) { out += string(t) + "," })
+				return out, err
+			}
+			fr.failFrom = -1
+			visit(dir[0])
+			visit(dir[1]) // the second call of a reader re-clones its per-field readers
+			visit(dir[0] + 1)
+			fr.failFrom = fr.reads + j
+			_, e := visit(dir[1])
+			base := (dir[0] / 1024) * 1024
+			for d := base; d < base+40 && d < uint64(n); d++ {
+				oc := watch(func() (W, error) {
+					got, err := visit(d)
+					var w W
+					w.Str(got)
+					return w, err
+				}, 3*time.Second)
+				var want W
+				want.Str(string(term(int(d))) + ",")
+				in := map[string]interface{}{"seed": seed, "cached_chunk_doc": dir[0], "failing_load_doc": dir[1], "fail_at_read_of_load": j, "visited": d, "failing_visit_reported_error": e != nil}
+				switch {
+				case oc.kind == "err":
+				case oc.kind == "ok" && (eqW(oc.out, want) || len(oc.out) <= 1):
+				case oc.kind == "ok":
+					sp.failf(in, "after a doc-value chunk load failed at its read %d, document %d of the cached chunk is answered with other bytes than its own, without an error", j, d)
+				default:
+					sp.failf(in, "after a failed doc-value chunk load, visiting document %d: %s", d, oc.kind)
+				}
+				sp.Evaluations++
+			}
+		}
+	}
 }
